@@ -721,6 +721,13 @@ func (e *engine) samplesPerWorker() int {
 func (m *machine) markPreexisting() {
 	m.preexist = map[*value]bool{}
 	m.preMaps = map[*amap]bool{}
+	for _, p := range m.globals {
+		m.markCell(p)
+	}
+}
+
+// markCell records a cell and everything reachable from it as pre-existing memory.
+func (m *machine) markCell(root *value) {
 	seenArr := map[*[]value]bool{}
 	var walk func(p *value)
 	var walkVal func(v value)
@@ -766,7 +773,5 @@ func (m *machine) markPreexisting() {
 		m.preexist[p] = true
 		walkVal(*p)
 	}
-	for _, p := range m.globals {
-		walk(p)
-	}
+	walk(root)
 }
